@@ -508,6 +508,11 @@ macro_rules! define_frost_core { () => {
             // that the public key matches it, because this was already
             // verified when decoding.
 
+            // An empty commitment cannot match any share.
+            if vsscomm.is_empty() {
+                return false;
+            }
+
             let mut Q = vsscomm[0].0;
             let k = self.ident;
             let mut z = k;
@@ -691,6 +696,18 @@ macro_rules! define_frost_core { () => {
             // Verify that the share is really ours.
             if sig_share.ident.equals(self.ident) == 0 {
                 return false;
+            }
+
+            // The commitment list is untrusted here: it must be ordered by
+            // ascending identifier, with no duplicate (as enforced by
+            // SignerPrivateKeyShare::sign()); otherwise, the share is
+            // rejected.
+            for i in 1..commitment_list.len() {
+                if scalar_cmp_vartime(commitment_list[i - 1].ident,
+                    commitment_list[i].ident) != Ordering::Less
+                {
+                    return false;
+                }
             }
 
             // Find our commitment in the list.
